@@ -26,19 +26,34 @@ RULE = ("tie: (n, classical?, pattern) whose gate list was diffed against the Le
         "non-zero distance from some stored string")
 
 
-def build(n, pattern, classical, memory_vec=None, pattern_vec=None):
+UNREACHED_JUSTIFIED = {}   # pqm.py: every statement and branch outcome is reached in the quick tier
+
+FORMS = ("plain", "np-int", "bool", "tuple", "default-flag")
+
+
+def build(n, pattern, classical, memory_vec=None, pattern_vec=None, form="plain"):
     from qiskit import QuantumCircuit, QuantumRegister
     from qclib.memory import pqm
     qm = QuantumRegister(n, "m")
     qa = QuantumRegister(1, "a")
     if classical:
         circ = QuantumCircuit(qm, qa)
-        pqm.initialize(circ, list(pattern), qm, qa[0], is_classical_pattern=True)
+        pat = list(pattern)
+        if form == "np-int":        # the `pattern[k] == 1` test on numpy integers / bools / a tuple
+            pat = np.array(pat, dtype=np.int64)
+        elif form == "bool":
+            pat = [bool(b) for b in pat]
+        elif form == "tuple":
+            pat = tuple(pat)
+        pqm.initialize(circ, pat, qm, qa[0], is_classical_pattern=True)
         wires = dict(mem=list(range(n)), pat=[0] * n, aux=n)
     else:
         qp = QuantumRegister(n, "p")
         circ = QuantumCircuit(qp, qm, qa)
-        pqm.initialize(circ, qp, qm, qa[0], is_classical_pattern=False)
+        if form == "default-flag":  # is_classical_pattern left at its default
+            pqm.initialize(circ, qp, qm, qa[0])
+        else:
+            pqm.initialize(circ, qp, qm, qa[0], is_classical_pattern=False)
         wires = dict(pat=list(range(n)), mem=list(range(n, 2 * n)), aux=2 * n)
     return circ, wires
 
@@ -47,10 +62,10 @@ def hamming(a, b, n):
     return bin((a ^ b) & ((1 << n) - 1)).count("1")
 
 
-def oracle_case(ctx, n, pattern, classical, mem_state, key, pat_state=None):
+def oracle_case(ctx, n, pattern, classical, mem_state, key, pat_state=None, form="plain"):
     """mem_state: complex vector length 2^n (memory); pattern: list of bits (little-endian: bit k ↔ qubit k)."""
     from qiskit.quantum_info import Statevector
-    circ, w = build(n, pattern, classical)
+    circ, w = build(n, pattern, classical, form=form)
     pint = sum(b << k for k, b in enumerate(pattern))
     nq = circ.num_qubits
     init = np.zeros(2 ** nq, dtype=complex)
@@ -80,7 +95,7 @@ def oracle_case(ctx, n, pattern, classical, mem_state, key, pat_state=None):
         e1 = abs(probs[idx | (1 << aux)] - p0 * math.sin(math.pi * d / (2 * n)) ** 2)
         worst = max(worst, e0, e1)
     rep = {"call": "qclib.memory.pqm.initialize", "n": n, "pattern": list(pattern), "classical": classical,
-           "memory": [[float(np.real(a)), float(np.imag(a))] for a in mem_state], "worst_abs_err": worst}
+           "memory": [[float(np.real(a)), float(np.imag(a))] for a in mem_state], "worst_abs_err": worst, "form": form}
     nz = int(np.sum(np.abs(mem_state) > 1e-12))
     if worst > 1e-9:
         ctx.fail(key, f"cosine law / marginal violated by {worst:.3e}", rep)
@@ -99,9 +114,9 @@ def gate_conventions(ctx):
         ctx.fail("assumption:gate-matrix", "p/cp/h matrix convention changed", kind="assumption")
 
 
-def tie_case(ctx, n, pattern, classical):
+def tie_case(ctx, n, pattern, classical, form="plain"):
     from flatten import flatten, to_lines
-    circ, w = build(n, pattern, classical)
+    circ, w = build(n, pattern, classical, form=form)
     ctx.tie({"op": "pqm", "n": n, "classical": classical, "pattern": list(pattern), "mem": w["mem"],
              "pat": w["pat"], "aux": w["aux"], "theta_m": -math.pi / (2 * n), "theta_c": math.pi / n},
             to_lines(flatten(circ)))
@@ -144,6 +159,17 @@ def run(ctx, nmax_tie=None, nmax_or=None):
                     ms = rand_state(ctx, 2 ** n, kind)
                     key = f"pqm:n={n}:p={''.join(map(str, pattern))}:{int(classical)}:{kind}"
                     oracle_case(ctx, n, pattern, classical, ms, key)
+        # argument forms: numpy-integer / bool / tuple patterns, is_classical_pattern left at its default
+        if n <= 3:
+            for form in FORMS[1:]:
+                pattern = [ctx.rng.randint(0, 1) for _ in range(n)]
+                if form != "default-flag" and not any(pattern):
+                    pattern[ctx.rng.randrange(n)] = 1
+                classical = form != "default-flag"
+                tie_case(ctx, n, pattern, classical, form)
+                oracle_case(ctx, n, pattern, classical, rand_state(ctx, 2 ** n, "haar"),
+                            f"pqm:n={n}:p={''.join(map(str, pattern))}:{int(classical)}:form={form}", form=form)
+                ctx.count("branch:argument-form:" + form)
         # superposed quantum pattern
         ms = rand_state(ctx, 2 ** n, "haar")
         ps = rand_state(ctx, 2 ** n, "haar")
@@ -158,4 +184,4 @@ def search(ctx, hints):
 def replay(ctx, payload):
     r = payload["replay"]
     ms = np.array([complex(a, b) for a, b in r["memory"]])
-    oracle_case(ctx, r["n"], r["pattern"], r["classical"], ms, payload["key"])
+    oracle_case(ctx, r["n"], r["pattern"], r["classical"], ms, payload["key"], form=r.get("form", "plain"))
